@@ -32,6 +32,10 @@ C['C18'] = dict(level=TV, engine='E1', design='§2 C18',
    technique='SMT equivalence of emitted systems under a harness-computed renaming / country-prefix map; isolation read off the emitted text',
    text='Single-zone topologies are built under four injective renamings of country/sector/market codes and the renamed system must be the renamed image of the default one (same variable sets; equations equivalent over all reals). Sets of 2-3 economies with distinct currencies (zoo economies, federations, and the bundled SIM/SIMEX1/PC/REG builders), with and without an unused ExternalSector, are built jointly and alone: the joint system restricted to each economy must equal the prefixed stand-alone system and mention no variable of another economy.',
    note="Renaming map and prefix map are computed by the harness from the documented naming convention/object API. Don't-care: government classes' constructor-declared DEM_GOOD/PRIM_BAL when the goods market is renamed; model-level time axis t.")
+C['C05'] = dict(level=TV, engine='E1', design='§2 C05',
+   technique='SMT equivalence of each emitted right-hand side with the harness-side intended form (canonical binding of referents); syntactic closure read off the emitted text',
+   text='Over the zoo and over a family of embedding sites x request time (placeholder / canonical) x 1-2 countries x templates, the real Model.main() is run; the solver shows each emitted equation equal, over all valuations, to its sector-local form / the harness template with referents bound to the canonical FullCode__local variable; closure (unique canonical left-hand sides, no dangling or placeholder name) is read off the text.',
+   note='Closure clauses are syntactic (no numbers involved) and enumerated; the semantic clause is decided by z3. Exogenous-text and initial-condition sites cannot embed a name meaningfully and are excluded (stated in evidence).')
 PENDING = {}
 ALL = ['C%02d' % i for i in range(1, 21)]
 checks = []
